@@ -13,7 +13,7 @@ from pyvc.contracts import contract, Contract, LoopSpec, REGISTRY
 from pyvc.sym import (T, TD, SObj, SBool, SInt, SReal, SStr, SDate, SList, SSet,
                       SMap, Sym, Unsupported, StrS)
 from pyvc.ops import zbool, values_equal, truth
-from pyvc.interp import Builtin
+from pyvc.interp import Builtin, specfn
 from pyvc import extract
 from specs.sym_prims import constraints_spec_env, make_col, PRIMS
 
@@ -891,3 +891,225 @@ contract(DBC + 'types_compatible', props=['C08'],
          params=dict(x=T.scalar, y=T.scalar, colname=T.opt(T.str)),
          spec_env=dict(ENV, same_static_type=_same_static_type), result=T.bool,
          ensures=[('exact-type-compatibility', 'result == same_static_type(x, y)')])
+
+
+# ---------------------------------------------------------------------------
+# base.verify: aggregation of verdicts into totals (C02), detection protocol
+# and output-file handling (C06)
+# ---------------------------------------------------------------------------
+# Fields and constraints are abstract sequences.  VER(f, j) is the verdict the
+# dispatch table's verifier gives for the j-th constraint of field f (an
+# uninterpreted Boolean), HAS(f, j) whether the table has a verifier for its
+# kind.  CT / CF count true / false verdicts in a prefix of a field's
+# constraints, SP / SF sum them over a prefix of the fields:
+#   CT(f, 0) = 0,  CT(f, j+1) = CT(f, j) + [HAS(f, j) and VER(f, j)]      (A-count)
+#   SP(0) = 0,     SP(i+1)   = SP(i) + CT(NAME(i), M(NAME(i)))
+# The postcondition is results.passes = SP(n), results.failures = SF(n): the
+# totals equal the counts of the verdicts; kinds without a verifier count in
+# neither.
+
+_VER = z3.Function('VER', StrS, z3.IntSort(), z3.BoolSort())
+_HAS = z3.Function('HAS', StrS, z3.IntSort(), z3.BoolSort())
+_KIND = z3.Function('KIND', StrS, z3.IntSort(), StrS)
+_M = z3.Function('M', StrS, z3.IntSort())
+_CT = z3.Function('CT', StrS, z3.IntSort(), z3.IntSort())
+_CF = z3.Function('CF', StrS, z3.IntSort(), z3.IntSort())
+_NAME = z3.Function('NAME', z3.IntSort(), StrS)
+_SP = z3.Function('SP', z3.IntSort(), z3.IntSort())
+_SF = z3.Function('SF', z3.IntSort(), z3.IntSort())
+_HASKIND = z3.Function('HASKIND', StrS, z3.BoolSort())
+
+
+def _count_axioms(it):
+    """Ground facts only (SP(0) = SF(0) = 0); the recursive equations are instantiated where the
+    executor touches a field / a constraint / a field index, so every query stays quantifier-free
+    and refutations come with a model."""
+    it.path.assume(z3.And(_SP(0) == 0, _SF(0) == 0))
+
+
+def _inst_field(it, f):
+    it.fact(z3.And(_CT(f, 0) == 0, _CF(f, 0) == 0, _M(f) >= 0))
+
+
+def _inst_constraint(it, f, j):
+    one = lambda c: z3.If(c, 1, 0)
+    it.fact(z3.And(
+        _HAS(f, j) == _HASKIND(_KIND(f, j)),
+        _CT(f, j + 1) == _CT(f, j) + one(z3.And(_HAS(f, j), _VER(f, j))),
+        _CF(f, j + 1) == _CF(f, j) + one(z3.And(_HAS(f, j), z3.Not(_VER(f, j))))))
+
+
+def _inst_index(it, i):
+    it.fact(z3.And(_SP(i + 1) == _SP(i) + _CT(_NAME(i), _M(_NAME(i))),
+                   _SF(i + 1) == _SF(i) + _CF(_NAME(i), _M(_NAME(i)))))
+
+
+def _verify_setup(it, senv):
+    from pyvc.ops import strz
+    _count_axioms(it)
+    nfields = z3.Int(it.path.fresh_name('nfields'))
+    it.path.assume(nfields >= 0)
+    def field_name(i):
+        _inst_index(it, i)
+        return SStr(_NAME(i))
+    allfields = SList(nfields, field_name, T.str, 'list')
+    it.ghost['allfields'] = allfields
+
+    # constraints.fields: keys() and item access
+    fields = SObj('Fields', {'__open__': False})
+    fields.methods['keys'] = Builtin(lambda it2, self: allfields)
+
+    def field_item(it2, self, name):
+        nz = strz(it2, name)
+        _inst_field(it2, nz)
+
+        def get(jz):
+            _inst_constraint(it2, nz, jz)
+            c = SObj('Constraint', {'kind': SStr(_KIND(nz, jz)), '__open__': False})
+            c.index = jz
+            c.field = nz
+            return c
+        fc = SObj('FieldConstraints', {'__iter__': SList(_M(nz), get, None, 'list'), '__open__': False})
+        return fc
+    fields.methods['__getitem__'] = Builtin(field_item)
+    senv['constraints'].attrs['fields'] = fields
+
+    # sorted(keys, key=...) : a permutation of the keys; the totals do not depend on the order
+    it.spec_env['sorted'] = Builtin(lambda it2, seq, key=None, reverse=False: allfields)
+
+    # the dispatch table: kind -> verifier (a stub returning VER for the constraint at hand)
+    def verifier(it2, name, c, detect):
+        it2.path.events.append(('verifier-call', name, c, detect))
+        return SBool(_VER(c.field, c.index))
+    vmap = SMap(lambda k: _HASKIND(strz(it, k)), lambda k: Builtin(verifier), T.str, None, 'verifiers')
+    senv['verifiers'] = vmap
+    it.ghost['verifiers'] = vmap
+
+    # results object: Verification with symbolic-key field store
+    it.spec_env['TDDAObject'] = Builtin(_tdda_object)
+    writer_calls = it.ghost.setdefault('writer_calls', [])
+
+    def writer(it2, **kw):
+        writer_calls.append((dict(kw), len(it2.path.events)))
+        it2.path.events.append(('writer-call',))
+        return SObj('Detection', {'__open__': False})
+    senv['detected_records_writer'] = Builtin(writer)
+    it.ghost['writer'] = senv['detected_records_writer']
+
+
+def _tdda_object(it, *a, **k):
+    o = SObj('TDDAObject', {'__open__': True})
+    store = SymKeyDict()
+    o.attrs['__items__'] = store
+
+    def setitem(it2, obj, key, value):
+        it2.setitem(store, key, value, None, None)
+    o.attrs['__setitem__'] = setitem
+    return o
+
+
+class _VerificationStub(object):
+    pass
+
+
+def _verification_class(it, name):
+    def make(it2, constraints, **kw):
+        it2.ghost['verification_kwargs'] = dict(kw)
+        return SObj('Verification', {'fields': _tdda_object(it2), 'failures': 0, 'passes': 0,
+                                     'detection': None, '__open__': False})
+    return Builtin(make)
+
+
+@specfn
+def totals_ok(it, results):
+    n = it.ghost['allfields'].n
+    from pyvc.sym import num_z
+    return SBool(z3.And(num_z(results.attrs['passes'])[0] == _SP(n),
+                        num_z(results.attrs['failures'])[0] == _SF(n)))
+
+
+@specfn
+def detecting(it, kwargs_given):
+    return (kwargs_given.get('detect_outpath') is not None or kwargs_given.get('detect') is not None
+            or kwargs_given.get('detect_in_place') is not None)
+
+
+@specfn
+def writer_called(it):
+    return len(it.ghost.get('writer_calls', []))
+
+
+@specfn
+def outfile_emptied_and_removed_first(it, path):
+    """open(path, 'w') then os.remove(path), both before any verifier ran; nothing else written."""
+    ev = [e for e in it.path.events if e[0] in ('open', 'remove', 'verifier-call', 'writer-call')]
+    kinds = [e[0] for e in ev]
+    if kinds[:2] != ['open', 'remove']:
+        return False
+    if ev[0][1] is not path or ev[1][1] is not path or 'w' not in ev[0][2]:
+        return False
+    return 'open' not in kinds[2:] and 'remove' not in kinds[2:]
+
+
+@specfn
+def no_file_touched(it):
+    return not any(e[0] in ('open', 'remove') for e in it.path.events)
+
+
+_OUTPATH = T.union(T.const(Ellipsis), T.none, T.str)
+_DET = T.union(T.const(Ellipsis), T.const(True))
+
+contract(BASE + 'verify', props=['C02', 'C06'],
+         params=dict(constraints=T.custom(lambda it, n: SObj('DatasetConstraints', {'__open__': False})),
+                     fieldnames=T.list(T.str),
+                     verifiers=T.none,        # bound in on_entry
+                     VerificationClass=T.custom(_verification_class),
+                     detected_records_writer=T.none),
+         kwparams=dict(detect_outpath=_OUTPATH, detect=_DET, detect_in_place=T.union(T.const(Ellipsis), T.const(False))),
+         on_entry=_verify_setup,
+         spec_env=dict(ENV, totals_ok=totals_ok, detecting=detecting, writer_called=writer_called,
+                       outfile_emptied_and_removed_first=outfile_emptied_and_removed_first,
+                       no_file_touched=no_file_touched),
+         loops={1: LoopSpec([('totals-so-far', 'results.passes == SPi(_i) and results.failures == SFi(_i)')],
+                            havoc={'name': T.str, 'field_results': 'unbound', 'failures': T.int, 'passes': T.int,
+                                   'c': 'unbound', 'verify': 'unbound', 'satisfied': 'unbound',
+                                   'results.passes': T.int, 'results.failures': T.int, 'results.fields': 'keep'}),
+                2: LoopSpec([('field-counts-so-far', 'passes == CTi(name, _i) and failures == CFi(name, _i)')],
+                            havoc={'c': 'unbound', 'verify': 'unbound', 'satisfied': 'unbound',
+                                   'passes': T.int, 'failures': T.int, 'field_results': 'keep'})},
+         result=T.opaque,
+         ensures=[('totals-equal-verdict-counts', 'totals_ok(result)'),
+                  ('writer-called-iff-detecting-and-failed',
+                   'writer_called() == (1 if (detecting(kwargs_given) and result.failures > 0) else 0)'),
+                  ('stale-output-file-emptied-and-removed-before-verification',
+                   "outfile_emptied_and_removed_first(kwargs_given['detect_outpath']) "
+                   "if kwargs_given.get('detect_outpath') else no_file_touched()")])
+
+
+@specfn
+def SPi(it, i):
+    from pyvc.sym import num_z
+    return SInt(_SP(num_z(i)[0]))
+
+
+@specfn
+def SFi(it, i):
+    from pyvc.sym import num_z
+    return SInt(_SF(num_z(i)[0]))
+
+
+@specfn
+def CTi(it, name, i):
+    from pyvc.sym import num_z
+    from pyvc.ops import strz
+    return SInt(_CT(strz(it, name), num_z(i)[0]))
+
+
+@specfn
+def CFi(it, name, i):
+    from pyvc.sym import num_z
+    from pyvc.ops import strz
+    return SInt(_CF(strz(it, name), num_z(i)[0]))
+
+
+REGISTRY[BASE + 'verify'].spec_env.update(SPi=SPi, SFi=SFi, CTi=CTi, CFi=CFi)
